@@ -1727,6 +1727,37 @@ pub async fn serve_sync(
     recv_res
 }
 
+/// Private sync-server internals, exposed to the simulator (feature `verif`).
+#[cfg(feature = "verif")]
+pub mod verif {
+    use super::*;
+
+    pub async fn process_sync(
+        pool: SplitPool,
+        bookie: Bookie,
+        sender: Sender<SyncMessage>,
+        recv: mpsc::Receiver<SyncRequestV1>,
+    ) -> eyre::Result<()> {
+        super::process_sync(pool, bookie, sender, recv).await
+    }
+
+    pub fn handle_need(
+        conn: &mut Connection,
+        actor_id: ActorId,
+        need: SyncNeedV1,
+        sender: &Sender<SyncMessage>,
+    ) -> eyre::Result<()> {
+        super::handle_need(conn, actor_id, need, sender)
+    }
+
+    pub fn chunk_range(
+        range: RangeInclusive<CrsqlDbVersion>,
+        chunk_size: usize,
+    ) -> Vec<RangeInclusive<CrsqlDbVersion>> {
+        super::chunk_range(range, chunk_size).collect()
+    }
+}
+
 #[cfg(test)]
 mod tests {
     use crate::api::public::api_v1_transactions;
